@@ -303,6 +303,9 @@ def out_of_domain(rec, pool):
     head = rec[1]
     if (head in QUANT or head == "*") and any(t in ("^", "$", "\\A", "\\Z") for t in texts):
         return "quantifier applied to a bare anchor (known finding C03-bare-anchor)"
+    strs = texts + [x for x in rec[2:] if isinstance(x, str)]
+    if len(strs) > 1 and any(re.search(r"(?<!\\)(?:\\\\)*\\\d+$", t) for t in strs) and any(t[:1].isdigit() for t in strs):
+        return "a numeric backreference next to a pattern that starts with a digit (known finding C03-backreference-digit)"
     if head in GROUPS and any(t.startswith("(?(") for t in texts):
         return "Capture/Group applied to a Conditional (known finding C03-group-of-conditional)"
     if head in GROUPS and any(t.startswith(("(?=", "(?!", "(?<=", "(?<!")) for t in texts):
